@@ -37,6 +37,15 @@ Theorem C15_writer_called_exactly_when_due : forall cur src m,
 Proof. exact writer_called_exactly_when_due. Qed.
 Print Assumptions C15_writer_called_exactly_when_due.
 
+(* util.verify_directory: with any number of concurrent callers and any interleaving of their
+   existence checks and makedirs calls, no caller raises (a lost creation race is retried) *)
+Theorem C15_verify_directory_never_raises : forall ts sched i t,
+  vfresh ts = true ->
+  Lib.Assoc.nget i (vthreads (vrun {| dir_exists := false; vthreads := ts |} sched)) = Some t ->
+  v_pc t <> VRaised.
+Proof. exact verify_directory_never_raises. Qed.
+Print Assumptions C15_verify_directory_never_raises.
+
 (* non-vacuity: a crash in the middle of the write leaves the previous module in place and a
    partial temp file; target_ok rejects a partial target *)
 Example C15_nonvacuous_crash :
